@@ -19,7 +19,7 @@ use std::{fmt, hash::Hash};
 //
 // requirements:
 // - values must be immutable
-#[derive(Default, Clone)]
+#[derive(Default)]
 pub struct IdSet<T: Hash + Eq> {
     map: HashMap<Ptr<T>, u32>,
     current_buf: Vec<T>, // TODO: instead of using Vec<T> for a buffer, maybe use a [MaybeUninit<T>], or even a raw buffer of bytes...
@@ -82,7 +82,8 @@ impl<T: Hash + Eq> IdSet<T> {
         // Therefore, value_ref is always valid if it has the same lifetime as current_buf, which it does.
         self.current_buf.push(value);
         let index = self.current_buf.len() - 1;
-        let value_ref: *mut T = &mut self.current_buf[index];
+        // (taken from the buffer's base pointer: borrowing the slice mutably would invalidate the pointers stored earlier)
+        let value_ref: *mut T = unsafe { self.current_buf.as_mut_ptr().add(index) };
         let ptr = Ptr(value_ref);
 
         use std::collections::hash_map::Entry;
@@ -159,6 +160,18 @@ impl<T: Hash + Eq> IdSet<T> {
         self.current_buf.clear();
         self.old_bufs.clear();
         self.id_to_ptr.clear();
+    }
+}
+
+impl<T: Hash + Eq + Clone> Clone for IdSet<T> {
+    fn clone(&self) -> Self {
+        // `map` and `id_to_ptr` hold pointers into the buffers, so a field-wise copy would keep pointing
+        // into the original's storage: re-intern the values in id order instead
+        let mut copy = Self::new();
+        for id in 0..self.len() as u32 {
+            copy.insert(self[id].clone());
+        }
+        copy
     }
 }
 
